@@ -1,5 +1,6 @@
 //! Check definitions: which scenario families and which oracles decide each property.
 
+use crate::adversary::Hostile;
 use crate::gen::*;
 use crate::oracle_transport::*;
 use crate::plan::*;
@@ -152,6 +153,120 @@ pub fn c02() -> CheckDef {
     }
 }
 
+
+// ------------------------------------------------------------------------------------------ C03
+
+fn states_only(_plan: &Plan) -> Vec<Box<dyn Oracle>> {
+    with_states(Vec::new())
+}
+
+/// Victim half connection against a hostile connected peer (a raw endpoint that only the
+/// adversary speaks for), interleaved with valid API calls at arbitrary times incl. 0 ms spacing.
+fn c03_gen_hostile_peer(seed: u64, run: u64, thorough: bool) -> Plan {
+    let mut r = Rng::keyed(&[seed, run, 0xc03]);
+    let mut plan = Plan::new("C03", "a_hostile_peer", seed, run);
+    plan.fate_seed = Some(crate::rng::key(&[seed, run, 0xfa7e]));
+    let setup = ASetup::sample(&mut r, run % 3 == 0, run % 2 == 0);
+    let mut eps = setup.endpoints();
+    eps[1].kind = EndpointKind::Raw;
+    plan.endpoints = eps;
+    plan.push(0, 0, Op::Create { ep: 0 });
+    plan.push(0, 1, Op::Create { ep: 1 });
+    let horizon = r.range(1, if thorough { 20 } else { 8 }) * 1_000_000;
+    plan.push(0, 2, Op::Link { from: None, to: None, rule: clean_rule(r.range(0, 20_000)) });
+    let max_len = ((setup.alloc[1] + FRAG - 1) / FRAG * FRAG).min(20_000);
+    let n_packets = r.range(0, 60);
+    let w = Workload::sample(&mut r, n_packets, max_len);
+    w.sends(&mut r, &mut plan, 0, None, 0, horizon, 0);
+    let mut cad = Cadence::sample(&mut r);
+    if run % 4 == 0 {
+        cad.period_us = 0; // bursts of steps with 0..2 us spacing
+    }
+    cad.steps(&mut r, &mut plan, 0, 0, horizon, if cad.period_us == 0 { 400 } else { 3000 }, true);
+    // the raw endpoint drains its inbox now and then
+    let mut t = 0;
+    while t < horizon {
+        plan.push(t, 5, Op::Step { ep: 1 });
+        t += 500_000;
+    }
+    plan.adversary = "hostile_peer".into();
+    plan.params.insert("hostile_big".into(), (run % 16 == 5) as u64 as f64);
+    plan.params.insert("hostile_max".into(), r.range(20, 600) as f64);
+    plan.end_us = horizon;
+    plan.sort();
+    plan
+}
+fn c03_adv_peer(plan: &Plan) -> Option<Box<dyn Adversary>> {
+    Some(Box::new(Hostile::new(plan, vec![(0, 1)])))
+}
+
+/// Genuine pair plus a hostile middlebox that injects crafted frames at both ends.
+fn c03_gen_mitm(seed: u64, run: u64, thorough: bool) -> Plan {
+    let mut r = Rng::keyed(&[seed, run, 0xc03]);
+    let horizon = r.range(2, if thorough { 30 } else { 10 }) * 1_000_000;
+    let sc = AScenario {
+        near_wrap: run % 3 == 0,
+        small_windows: run % 2 == 0,
+        packets: r.range(10, 200),
+        send_window_us: horizon,
+        fault_until_us: horizon,
+        horizon_us: horizon,
+        allow_flips: true,
+        allow_stalls: true,
+        phases: r.range(1, 3),
+    };
+    let mut plan = world_a_general("C03", "a_hostile_mitm", seed, run, &sc, false);
+    plan.adversary = "hostile_mitm".into();
+    plan.params.insert("hostile_max".into(), r.range(20, 400) as f64);
+    plan
+}
+fn c03_adv_mitm(plan: &Plan) -> Option<Box<dyn Adversary>> {
+    Some(Box::new(Hostile::new(plan, vec![(0, 1), (1, 0)])))
+}
+
+/// Genuine endpoints only: panics and hangs reachable by loss, delay and timing alone.
+fn c03_gen_genuine(seed: u64, run: u64, thorough: bool) -> Plan {
+    let mut r = Rng::keyed(&[seed, run, 0xc03]);
+    let mut sc = c01_sc(&mut r, thorough, run % 3 == 0, run % 2 == 0);
+    sc.phases = r.range(2, 5);
+    let mut plan = world_a_general("C03", "a_genuine", seed, run, &sc, run % 2 == 1);
+    if run % 2 == 1 {
+        plan.end_us = plan.end_us.min(sc.fault_until_us + 120_000_000);
+        for t in plan.timeline.iter_mut() {
+            if let Op::StepEvery { until_us, .. } = &mut t.op {
+                *until_us = plan.end_us;
+            }
+        }
+    }
+    plan
+}
+
+pub fn c03() -> CheckDef {
+    CheckDef {
+        property: "C03",
+        families: vec![
+            Family { name: "a_hostile_peer", world: "A", weight: 5, gen: c03_gen_hostile_peer, oracles: states_only, adversary: Some(c03_adv_peer),
+                what: "victim half connection vs a connected hostile peer: CRC-valid data/sync/ack frames with boundary, near-valid (computed from the victim's own frames) and random fields, fragment counts up to 65535, handshake/disconnect frames, random bytes, replays; interleaved with send/step/flush at arbitrary times incl. 0 us spacing" },
+            Family { name: "a_hostile_mitm", world: "A", weight: 3, gen: c03_gen_mitm, oracles: states_only, adversary: Some(c03_adv_mitm),
+                what: "genuine pair under faults plus a hostile middlebox injecting crafted frames at both ends" },
+            Family { name: "a_genuine", world: "A", weight: 2, gen: c03_gen_genuine, oracles: states_only, adversary: None,
+                what: "genuine pair only: loss, blackouts, delay, stalls (panics and hangs reachable without any forged frame)" },
+        ],
+        panic_is_violation: all_panics,
+        hang_is_violation: true,
+        quick_runs: 6000,
+        thorough_runs: 300_000,
+        rule: "one case = one simulated run; oracle = no panic located in uflow and every call returns (wall-clock watchdog, confirmed in a child process under an alarm); distinct = distinct run digest; non-trivial = every run (all of them deliver hostile or faulty traffic)",
+        real_code: REAL_A,
+        stubs: STUB_A,
+        assumptions: vec![
+            "simulation profile = release + debug assertions + overflow checks: a failing debug_assert or arithmetic overflow inside uflow counts as a panic (debug builds of applications would hit it)",
+            "the hostile peer cannot guess 32-bit handshake nonces it never saw; as a connected peer it knows the starting sequence numbers",
+            "a hang is reported only after it reproduced in a child process",
+        ],
+    }
+}
+
 // ------------------------------------------------------------------------------------------ C05
 
 fn c05_gen(seed: u64, run: u64, thorough: bool) -> Plan {
@@ -288,7 +403,7 @@ pub fn c20() -> CheckDef {
 }
 
 pub fn all() -> Vec<CheckDef> {
-    vec![c01(), c02(), c05(), c20()]
+    vec![c01(), c02(), c03(), c05(), c20()]
 }
 
 pub fn by_id(id: &str) -> Option<CheckDef> {
